@@ -20,9 +20,7 @@ package server
 import (
 	"context"
 	"fmt"
-	"net"
 	"os"
-	"path/filepath"
 	"sort"
 	"strings"
 	"sync"
@@ -38,7 +36,7 @@ import (
 
 const (
 	vC16Inf      = int64(1000000000)
-	vC16Deadline = 15 * time.Second
+	vC16Deadline = 10 * time.Second
 )
 
 type vC16Msg struct {
@@ -378,36 +376,6 @@ func (r *vC16Round) runWave(wave map[string]interface{}) (timeouts int) {
 	return timeouts
 }
 
-func vC16FreePort(t *testing.T) int {
-	l, err := net.Listen("tcp", "127.0.0.1:0")
-	if err != nil {
-		t.Fatalf("INCONCLUSIVE: no free port: %v", err)
-	}
-	defer l.Close()
-	return l.Addr().(*net.TCPAddr).Port
-}
-
-func vC16StartServer(t *testing.T) *Server {
-	cfg := getTestConfig("a", true, 0)
-	// private embedded NATS port: other harnesses run on the same machine
-	np := vC16FreePort(t)
-	if err := os.MkdirAll(storagePath, 0o755); err != nil {
-		t.Fatalf("INCONCLUSIVE: %v", err)
-	}
-	nf := filepath.Join(storagePath, "nats.conf")
-	if err := os.WriteFile(nf, []byte(fmt.Sprintf("host: 127.0.0.1\nport: %d\n", np)), 0o644); err != nil {
-		t.Fatalf("INCONCLUSIVE: %v", err)
-	}
-	cfg.EmbeddedNATSConfig = nf
-	cfg.NATS.Servers = []string{fmt.Sprintf("nats://127.0.0.1:%d", np)}
-	srv, err := RunServerWithConfig(cfg)
-	if err != nil {
-		t.Fatalf("INCONCLUSIVE: server did not start: %v", err)
-	}
-	getMetadataLeader(t, 20*time.Second, srv)
-	return srv
-}
-
 func TestVerifC16Server(t *testing.T) {
 	sf := vLoadStimuli(t)
 	tw := vOpenTrace(t)
@@ -418,7 +386,8 @@ func TestVerifC16Server(t *testing.T) {
 	}
 
 	defer os.RemoveAll(storagePath)
-	srv := vC16StartServer(t)
+	// private embedded-NATS port (other server harnesses run on this machine)
+	srv := vOneNodeServer(t, vOneNodeConfig(t, "a"))
 	defer srv.Stop()
 	conn, err := grpc.Dial(fmt.Sprintf("127.0.0.1:%d", srv.GetListenPort()), grpc.WithInsecure())
 	if err != nil {
@@ -428,7 +397,14 @@ func TestVerifC16Server(t *testing.T) {
 	api := client.NewAPIClient(conn)
 	emit(vC16Event{T: 0, A: "Open", Msgs: []vC16Msg{}, Log: []vC16Entry{}, Known: map[string]int64{}})
 
+	timedOutRounds := 0
 	for _, b := range sf.Behaviours {
+		if timedOutRounds >= 3 {
+			// answers are missing again and again: every further round would wait for its deadlines
+			emit(vC16Event{T: b.ID, A: "Aborted", Msgs: []vC16Msg{}, Log: []vC16Entry{}, Known: map[string]int64{},
+				Note: "3 rounds had publishes without an answer; remaining rounds not executed"})
+			break
+		}
 		emit(vC16Event{T: b.ID, A: "Begin", Msgs: []vC16Msg{}, Log: []vC16Entry{}, Known: map[string]int64{}})
 		var clk int64
 		r := &vC16Round{t: t, id: b.ID, srv: srv, api: api, clk: &clk, pubs: map[string]*vC16Pub{},
@@ -512,6 +488,9 @@ func TestVerifC16Server(t *testing.T) {
 			ev.A, ev.Note = "Unreadable", "reading the final log: "+rerr.Error()
 		}
 		emit(ev)
+		if timeouts > 0 {
+			timedOutRounds++
+		}
 		for _, p := range r.pubs {
 			if p.stream != nil {
 				p.stream.CloseSend()
